@@ -78,9 +78,9 @@ def fires(m, ev):
 
 def frame_layout(bodies, opts):
     """Total sizes (2-byte length + data + 16-byte tag) of the encrypted frames of an EB burst."""
+    import simacc
     fs = int((opts or {}).get("fs", 1024))
-    lens = [len(b"EVENT/1.0 200 OK\r\nContent-Type: application/hap+json\r\nContent-Length: "
-                + str(len(body_bytes(b))).encode() + b"\r\n\r\n" + body_bytes(b)) for b in bodies]
+    lens = [len(simacc.event_message(body_bytes(b))) for b in bodies]
     units = lens if (opts or {}).get("per_msg") else [sum(lens)]
     out = []
     for u in units:
@@ -274,8 +274,8 @@ def run_impl(hist, rmodes, lacts=None):
                 st["connected"] = bool(p.is_connected)
                 st["errors"] = len(loop.errors) - nerr
                 if st["errors"]:
-                    st["error_kinds"] = sorted({type(c.get("exception")).__name__ + ":" + str(c.get("message"))[:60]
-                                                for c in loop.errors[nerr:]})
+                    st["error_kinds"] = sorted({type(c.get("exception")).__name__ + "(" + str(c.get("exception"))[:40] + "):"
+                                                + str(c.get("message"))[:60] for c in loop.errors[nerr:]})
             try:
                 await p.shutdown()
             except Exception as e:  # noqa
@@ -523,7 +523,8 @@ def oracle(hist, rmodes, impl, lacts=None):
                 for l in registered:
                     exp[l].append(ev)
                 delivered(ev)
-            tag = ":reentrant-registry-change" if reentrant else ""
+            other_error = o["errors"] and not any("Set changed size" in e for e in o.get("error_kinds", []))
+            tag = ":reentrant-registry-change" if (reentrant and not other_error) else ""
             for l in sorted(set(exp) | set(by)):
                 if by.get(l, []) != exp.get(l, []):
                     bad.append(("event:listener-log" + tag, f"listener {l} got {by.get(l, [])}, but the messages that arrived "
@@ -596,6 +597,49 @@ def gen_exhaustive(depth):
             for v in variants:
                 yield prefix + v + PROBE, bh_cycle[n % len(bh_cycle)][0], bh_cycle[n % len(bh_cycle)][1]
                 n += 1
+
+
+def structural_cuts(layout):
+    """Cut positions that matter for a frame decoder: every frame boundary, inside the length prefix, just after it,
+    inside the data, at the start of / inside / one before the end of the tag."""
+    out, b = set(), 0
+    for sz in layout:
+        n = sz - 18
+        out |= {b, b + 1, b + 2, b + 3, b + 2 + n // 2, b + 2 + n - 1, b + 2 + n, b + 2 + n + 1, b + 2 + n + 8, b + 2 + n + 15}
+        b += sz
+    return sorted(c for c in out if 0 < c < b)
+
+
+BIG_ROWS = [[*UNIVERSE[i % 4], i] for i in range(64)]          # one EVENT of ~1.9 kB: two 1024-byte frames
+
+
+def gen_bursts(tier):
+    """Event bursts made of several encrypted frames, the reads cut at EVERY byte position (short bursts) /
+    every structural position and a stride (the > 1024-byte event), plus two-cut combinations."""
+    prefix = [["A", 1], ["A", 2], ["S", [[1, 2], [2, 2]], {}, {}], ["CU", {}]]
+    bhs = [({}, {}), ({"2": 1}, {}), ({"1": 3}, {}), ({}, {"1": [3, [[False, 1]]]})]
+    bursts = [
+        ([["b", [[1, 2, 7]]], "e", ["b", [[1, 3, 1], [1, 3, 2]]], "n1", ["b", [[2, 2, 8]]]], {"fs": 1024, "per_msg": True}, 1),
+        ([["b", [[1, 2, 7], [2, 2, 8]]]], {"fs": 32}, 1),
+        ([["b", [[1, 2, 1]]], ["b", [[1, 2, 2]]], ["b", [[1, 2, 3]]]], {"fs": 48}, 1),
+        ([["b", BIG_ROWS]], {"fs": 1024}, 1 if tier == "thorough" else 7),
+        ([["b", [[2, 3, 5]]], ["b", BIG_ROWS], ["b", [[2, 3, 6]]]], {"fs": 1024, "per_msg": True}, 3 if tier == "thorough" else 23),
+    ]
+    n = 0
+    for bodies, opts, stride in bursts:
+        layout = frame_layout(bodies, opts)
+        total = sum(layout)
+        sc = structural_cuts(layout)
+        singles = sorted(set(range(1, total, stride)) | set(sc))
+        cutsets = [[]] + [[c] for c in singles]
+        # two reads boundaries: (frame boundary + k bytes into the next frame) combined with a later structural cut
+        pairs = [(a, b) for a in sc for b in sc if a < b]
+        step = max(1, len(pairs) // (400 if tier == "thorough" else 60))
+        cutsets += [list(pr) for pr in pairs[::step]]
+        for cs in cutsets:
+            rm, la = bhs[n % len(bhs)]
+            yield prefix + [["EB", bodies, cs, opts]] + PROBE, rm, la
+            n += 1
 
 
 def rand_script(r):
@@ -675,8 +719,15 @@ def gen_random(r, n):
                     hist.append(["CU", rand_script(r)])
                     up = True      # approximately: a cut-off re-subscribe drops it again
             else:
-                hist.append(["EB", [rand_body(r) for _ in range(r.choice([1, 1, 2, 3, 5]))],
-                             [round(r.random(), 3) for _ in range(r.choice([0, 0, 1, 2, 4]))]])
+                bodies = [rand_body(r) for _ in range(r.choice([1, 1, 2, 3, 5]))]
+                if r.random() < 0.08:
+                    bodies.insert(r.randrange(len(bodies) + 1), ["b", BIG_ROWS])
+                opts = {"fs": r.choice([1024, 1024, 16, 40, 100, 255]), "per_msg": r.random() < 0.5}
+                total = sum(frame_layout(bodies, opts))
+                ncut = r.choice([0, 0, 1, 2, 4])
+                cuts = [r.randrange(1, total) for _ in range(ncut)] if (total > 1 and r.random() < 0.7) \
+                    else [round(r.random(), 3) for _ in range(ncut)]
+                hist.append(["EB", bodies, cuts, opts])
             last = hist[-1]
             if last[0] in ("S", "U", "CU"):
                 rs = last[2] if last[0] != "CU" else last[1]
@@ -725,6 +776,8 @@ def run(ctx):
         depth, nrand = (2, 1500) if tier == "quick" else (3, 34000)
         cases = list(gen_exhaustive(depth))
         n_ex = len(cases)
+        cases += list(gen_bursts(tier))
+        n_burst = len(cases) - n_ex
         cases += list(gen_random(rng(seed, "c12rand"), nrand))
         cp = os.path.join(ctx["verif"], "harness", "corpus", "C12.json")
         for item in (json.load(open(cp)) if os.path.exists(cp) else []):
@@ -737,7 +790,12 @@ def run(ctx):
             "executed while disconnected, a subscribe() call waiting for the connection while the session comes up, "
             "a reconnect whose re-subscribe is cut off (5 ways + HTTP 4xx, per aid), and for "
             "every subscribe/unsubscribe request the same cut-offs of the request itself; 8 listener-behaviour tables "
-            "(raising / self-removing / registering listeners) in rotation")
+            "(raising / self-removing / registering listeners) in rotation; "
+            f"plus {n_burst} multi-frame event bursts (5 bursts: 5 messages in 5 frames, one message in 32-byte frames, "
+            "3 messages in 48-byte frames, one 1.9 kB event in two 1024-byte frames, the same between two small events) "
+            "with the reads cut at every byte position (stride for the 1.9 kB ones in the quick tier) and at every "
+            "structural position (frame boundary, inside the length prefix, after it, inside the data, start/inside/end "
+            "of the tag), plus two-cut combinations of structural positions")
     lines = [model_line(h, ints(rm), ints(la)) for h, rm, la in cases]
     answers = drv.batch(lines)
     if tier == "thorough" and len(cases) > 5000:
@@ -765,7 +823,9 @@ def run(ctx):
                                           if p[2] in ("d", "x")})) or "none",
                  raising=",".join(f"{k}:{v}" for k, v in sorted(rm.items())) or "none",
                  reentrant=",".join(f"{k}:{v[0]}" for k, v in sorted(la.items())) or "none",
-                 event_msgs=sum(len(it[1]) for it in hist if it[0] == "EB"))
+                 event_msgs=sum(len(it[1]) for it in hist if it[0] == "EB"),
+                 event_frames=max([len(frame_layout(it[1], it[3] if len(it) > 3 else {})) for it in hist if it[0] == "EB"]),
+                 event_reads=max([o.get("reads", 0) for o in impl["steps"]]))
         if orc:
             # everything that goes wrong in a history after a re-entrant registry change hit the live-set
             # iteration is one defect: key it as such
